@@ -11,10 +11,13 @@ PROPERTY = {
     'SeasoningError into RecognitionError; __recognize_user_class consults '
     '_yatiml_recognize only if it is in the class\'s own body.',
     'trusted': LOAD_TRUSTED,
-    'assumptions': ['sweeten side (Representer.__sweeten) is verified under '
-                    'C06 when built'],
+    'assumptions': ['the enum and string-like representers use hasattr, i.e. '
+                    'the visible (possibly inherited) sweeten hook: the '
+                    'statement speaks of the node built from the object\'s '
+                    'attributes (mapping nodes); recorded, not claimed'],
 }
 
 
 def check(run):
-    run.verify_functions([R + '__recognize_user_class'] + LOADER)
+    run.verify_functions([R + '__recognize_user_class'] + LOADER + [
+        'yatiml/representers.py::Representer.__sweeten'])
